@@ -6,7 +6,7 @@ import expstage
 import matrix
 import vlib
 
-NONCOPY = ["string", "tuple", "vec", "map", "struct", "enum", "nc_tuple", "option"]
+NONCOPY = ["string", "tuple", "vec", "nc_vec", "map", "struct", "enum", "nc_tuple", "option"]
 WITNESS = {"id": "C09-closure-moves",
            "what": "a closure pattern at the root (or after a field operation) receives the asserted expression by value: "
                    "`assert_struct!(s, |x| x.len() > 0); drop(s)` does not compile for a String (E0382)"}
